@@ -85,7 +85,11 @@ var stringPool = []string{"plain", "", " lead", "trail ", "a<b", "a>b", "a&b", "
 func (x *gen) leafType() (*sg.TypeSpec, func() string) {
 	g := x.g
 	pickFrom := func(vals []string) func() string { return func() string { return vals[g.Pick(len(vals), "v")] } }
-	switch g.Pick(14, "ltype") {
+	switch g.Pick(15, "ltype") {
+	case 13:
+		// a member that takes the bare name of an identity stands before the identityref: the qualified spelling of the
+		// same identity is a value of the identityref member only
+		return &sg.TypeSpec{Name: "union", Members: []*sg.TypeSpec{{Name: "string", Patterns: []string{"[a-z][a-z0-9-]*"}}, {Name: "identityref", Base: "m0:b0"}}}, nil
 	case 0:
 		return &sg.TypeSpec{Name: "int8"}, pickFrom([]string{"-128", "127", "0", "-1", "5"})
 	case 1:
@@ -155,7 +159,9 @@ func (x *gen) leaf(w *world, mod string, name string, allowEmpty bool) *sg.Node 
 	}
 	if vg == nil {
 		vals := identValues(mod)
-		if ts.Name == "union" {
+		if ts.Name == "union" && ts.Members[0].Name == "string" {
+			vals = append(vals, "plain-word")
+		} else if ts.Name == "union" {
 			vals = append(vals, "200")
 		}
 		vg = func() string { return vals[g.Pick(len(vals), "idv")] }
@@ -870,6 +876,60 @@ func checkCase(c Case) fw.Outcome {
 				if gb.String() != wb.String() {
 					out.Violation = fmt.Sprintf("%s round trip changes the tree (validation %v)\n--- original\n%s--- decoded\n%s--- encoding\n%s\n%s", encNames[i], validate, wb.String(), gb.String(), b, src)
 					return out
+				}
+			}
+		}
+		// RFC 7951 section 6.8: an identity of the leaf's own module may also be written with the module name.  The JSON
+		// encodings of the tree with such identities respelt decode to the same tree (in either spelling).
+		ownIdents := map[string][]string{"m0": {"d1", "d2"}, "m1": {"e1"}}
+		respelt := 0
+		var respell func(ds []*D) []*D
+		respell = func(ds []*D) []*D {
+			var o []*D
+			for _, d := range ds {
+				cp := &D{Name: d.Name, Kids: respell(d.Kids)}
+				for _, v := range d.Vals {
+					if ts, lm := oi.types[d.Name], oi.leafMod[d.Name]; ts != nil && lm != nil && (ts.Name == "identityref" || ts.Name == "union") {
+						for _, id := range ownIdents[lm.Name] {
+							if v == id {
+								v = lm.Name + ":" + id
+								respelt++
+							}
+						}
+					}
+					cp.Vals = append(cp.Vals, v)
+				}
+				o = append(o, cp)
+			}
+			return o
+		}
+		qdata := respell(c.Data)
+		if respelt > 0 {
+			out.Labels = append(out.Labels, "own-module-qualified-identity")
+			var qb strings.Builder
+			canon(oi, qdata, 0, &qb, false)
+			qroot := D{Name: "root", Kids: qdata}
+			for i := 0; i < 2; i++ {
+				var b []byte
+				func() {
+					defer func() { recover() }()
+					b = encode(i, res.MS, qroot.node())
+				}()
+				if b == nil {
+					continue
+				}
+				for _, validate := range []bool{true, false} {
+					got, err, pan := decode(i, res.MS, b, validate)
+					if pan != nil || err != nil {
+						out.Violation = fmt.Sprintf("%s: the encoding with identities of the leaf's own module written module-qualified does not decode (validation %v): %v %v\nencoding: %s\n%s", encNames[i], validate, pan, err, b, src)
+						return out
+					}
+					var gb strings.Builder
+					canon(oi, got.Kids, 0, &gb, false)
+					if gb.String() != wb.String() && gb.String() != qb.String() {
+						out.Violation = fmt.Sprintf("%s: the encoding with module-qualified identities decodes to another tree (validation %v)\n--- original\n%s--- decoded\n%s--- encoding\n%s\n%s", encNames[i], validate, wb.String(), gb.String(), b, src)
+						return out
+					}
 				}
 			}
 		}
